@@ -3,7 +3,4 @@ INVARIANT EveryEntryHasItsFile
 INVARIANT DegreesAndSizesUnique
 INVARIANT SizesGrowWithDegrees
 INVARIANT EntriesPositive
-INVARIANT RecordsAreCatalogued
-INVARIANT AllRequiredDischarged
-INVARIANT RecordsClean
 INVARIANT ObligationCount
